@@ -657,7 +657,10 @@ func runC22(cfg *hx.RunCfg) (*hx.Result, error) {
 	r := hx.NewRng(cfg.Seed)
 	run := func(in c22Input) error {
 		if err := c22Case(res, in); err != nil {
-			return fmt.Errorf("%s %s k=%d: %w", in.Kind, in.Tag, in.K, err)
+			// the scenario could not be driven as scripted (a crash point was never reached, a
+			// gate timed out, a reference update failed): the implementation left the modelled
+			// protocol; reported with the input, and the run goes on
+			res.Fail("scenario-aborted", fmt.Sprintf("%s %s k=%d: %v", in.Kind, in.Tag, in.K, err), in)
 		}
 		return nil
 	}
